@@ -94,7 +94,9 @@ def worker(case, led):
                     continue
                 extra = {}
                 if method == "prop_and_compress_tdrk":
-                    extra["rk_solver"] = ["C_RK4", "38rule_RK4", "Kutta_RK3", "Fehlberg5", "Heun_RK2", "RKF45", "Cash-Karp45", "midpoint_RK2", "Ralston_RK2", "Forward_Euler"][(seed + int(x * 10)) % 10]
+                    # the embedded pairs (two rows of b) are only admissible with adaptive stepping (asserted by the library): they are exercised
+                    # by the `adaptive` cases; fixed-step runs rotate over the eight single-row tableaux
+                    extra["rk_solver"] = ["C_RK4", "38rule_RK4", "Kutta_RK3", "Fehlberg5", "Heun_RK2", "midpoint_RK2", "Ralston_RK2", "Forward_Euler"][(seed + int(x * 10)) % 8]
                 key = (name, n, method, solver, x, str(extra))
                 rep = {"model": name, "nsites": n, "method": method, "ivp_solver": solver, "x=|H|dt": x, "dt": dt, "seed": seed, "extra": extra,
                        "how": "props.C09.prepare(model, nsites, rng) then set_evolve/evolve"}
@@ -157,7 +159,7 @@ def worker(case, led):
         v0 = S.dense(a)
         dt = 0.6 / hn
         ref = scipy.linalg.expm(-1j * dt * Hd) @ v0
-        extra = {"rk_solver": "RKF45"} if method == "prop_and_compress_tdrk" else {}
+        extra = {"rk_solver": ["RKF45", "Cash-Karp45"][seed % 2]} if method == "prop_and_compress_tdrk" else {}
         key = (name, n, method, "adaptive")
         rep = {"model": name, "nsites": n, "method": method, "dt": dt, "seed": seed, "adaptive": True}
         try:
@@ -242,8 +244,13 @@ def worker(case, led):
             try:
                 nxt = cur.evolve(H, dt)
             except Exception as e:
-                led.check(False, f"post:Mps.evolve[{method}]:total", f"Mps._evolve_{method}", f"in a history {hist}: raised {type(e).__name__}: {e}",
-                          (name, n, seed, step, "hist"), {"method": method}, {"model": name, "nsites": n, "history": hist, "seed": seed})
+                exact = S.bond_dims_exact_of(cur)
+                over = any(b > x_ for b, x_ in zip(cur.bond_dims, exact))
+                led.check(False, f"post:Mps.evolve[{method}]:total", f"Mps._evolve_{method}", f"in a history {hist}: raised {type(e).__name__}: {e} "
+                          f"(bond dims {list(cur.bond_dims)}, exact ranks allow {exact})",
+                          (name, n, seed, step, "hist"), {"method": method, "exception": type(e).__name__, "reshape_error": "cannot reshape" in str(e),
+                                                           "input_has_over_complete_bonds": bool(over)},
+                          {"model": name, "nsites": n, "history": hist, "seed": seed, "bond_dims": list(map(int, cur.bond_dims))})
                 break
             ref = scipy.linalg.expm(-1j * dt * Hd) @ ref
             tot_bound += bound_for(method, x, cur, n, np.linalg.norm(ref))
